@@ -47,7 +47,12 @@ RULE = ('synthetic recordings built from every fixture meta of src/tests/fixture
         'sr.read_samples with boundary-biased selectors (ints incl. -n, n, out of range; NumPy integers; slices with every None/sign '
         'pattern, steps +-1..3, +-n, huge, 0; lists/arrays incl. empty, duplicates, negative, out of range; empty selectors) compared '
         'as shape + float32 bit patterns or exception class; for a third of the reads the specification selectM is also compared with '
-        'NumPy indexing of the raw integer array.  The first 34 recordings are the 17 fixtures unchanged (sorted .bin, unsorted .cbin).  Plus an exhaustive box of slice(start, stop, step).indices(n) / '
+        'NumPy indexing of the raw integer array.  Statefulness: all operations of a recording run on ONE Reader object; 30 % of the cases '
+        'call three times with the same argument objects, 15 % interleave other library calls (geometry_from_meta, '
+        '_conversion_sample2v_from_meta, _get_nshanks_from_meta, trace_header, range_volts, read_sync, other reads) between two identical '
+        'calls: every call must return the model answer for the original values; 30 % of the recordings (and every unchanged fixture) '
+        'are opened a second time (after a reader with the other sort mode) and geometry_from_meta is called again: order, gains, geometry '
+        'and data must equal the first reader.  The first 34 recordings are the 17 fixtures unchanged (sorted .bin, unsorted .cbin).  Plus an exhaustive box of slice(start, stop, step).indices(n) / '
         'integer indices against CPython.  Non-trivial = permutation not the identity, or non-uniform gains, or a step other than '
         'None/1; distinct by (recording, operation).')
 ASSUMPTIONS = [
@@ -60,6 +65,7 @@ ASSUMPTIONS = [
     'site-table keys (shank, row, col) are integer valued (asserted on every generated table); the geometry conversion itself (col flip, x/y) belongs to C08: the unsorted geometry of the real code is the input of the order model',
     'read_samples: only its data part is compared (Reader.read_sync is stubbed during the call; sync decoding is C10)',
     'ties of (shank, row, col): the model breaks them by on-disk index (np.lexsort is stable) and proves that; the comparison of raw_channel_order with the model and the oracle accept any order among electrodes with identical (shank, row, col), as the property does; the reads are then modelled with the order the reader reports',
+    'purity: whether a call modified its selector objects or a reader attribute is only recorded (info: tags, none on the current tree); a disagreement is reported only through results (a later call of the sequence returning something else than the model of the original values); results are never overwritten by the harness',
     'metadata describing more sites than saved channels (Reader.__init__ raises ValueError) is outside the property; generated rarely to compare the error branch',
 ]
 TRUSTED = [
@@ -243,6 +249,9 @@ def gen_spec(rng, k, quick=True):
     spec['data_seed'] = int(rng.integers(0, 2 ** 31))
     spec['over'] = over
     spec['ops'] = gen_ops(rng, ns, nc, spec['backend'], big)
+    # call sequence of every operation (see run_sequence) and whether lists are handed over as ndarrays
+    spec['modes'] = [[MODES[int(rng.choice(3, p=[.55, .3, .15]))], bool(rng.random() < 0.5)] for _ in spec['ops']]
+    spec['reopen'] = bool(rng.random() < 0.3) or forced      # the unchanged fixtures are always opened a second time
     return spec
 
 
@@ -401,6 +410,7 @@ class Recording:
             return
         self.meta = self.sr.meta
         assert self.sr.ns == ns and self.sr.nc == nc, (self.sr.ns, ns, self.sr.nc, nc)
+        self.snap = snapshot(self.sr)
 
     def close(self):
         try:
@@ -467,31 +477,185 @@ def numpy_select(D, op, array_lists=False):
         return 'err ' + type(e).__name__
 
 
-def run_op(sr, op, array_lists=False):
+def build_args(op, array_lists=False):
+    """the Python selector objects of one operation, built ONCE (the same objects are handed to repeated calls)"""
+    if op[0] == 'read':
+        return [py_sel(op[2], array_lists), py_sel(op[3], array_lists)]
+    if op[0] == 'item1':
+        return [py_sel(op[1], array_lists)]
+    if op[0] == 'itemt':
+        return [py_sel(op[1], array_lists), py_sel(op[2], array_lists)]
+    if op[0] == 'itemi':
+        return [tuple([] if op[1] == '-' else [int(v) for v in op[1].split(',')])]
+    if op[0] == 'rs':
+        return [int(op[1]), int(op[2]), None if op[3] == 'none' else py_sel(op[3], array_lists)]
+    raise RuntimeError(op)
+
+
+def _freeze(a):
+    """a value that can be compared later to see whether the caller's argument object was modified"""
+    if isinstance(a, np.ndarray):
+        return ('nd', str(a.dtype), a.shape, a.tobytes())
+    if isinstance(a, slice):
+        return ('slice', a.start, a.stop, a.step)
+    if isinstance(a, (list, tuple)):
+        return (type(a).__name__, tuple(_freeze(x) for x in a))
+    return (type(a).__name__, repr(a))
+
+
+def call_op(sr, op, args):
+    """one call of the real reader; returns (canonical answer, returned object or None)"""
     try:
         if op[0] == 'read':
-            nsel, csel = py_sel(op[2], array_lists), py_sel(op[3], array_lists)
-            r = sr[nsel, csel] if op[1] == 'getitem' else sr.read(nsel=nsel, csel=csel, sync=False)
+            r = sr[args[0], args[1]] if op[1] == 'getitem' else sr.read(nsel=args[0], csel=args[1], sync=False)
         elif op[0] == 'item1':
-            r = sr[py_sel(op[1], array_lists)]
+            r = sr[args[0]]
         elif op[0] == 'itemt':
-            r = sr[py_sel(op[1], array_lists), py_sel(op[2], array_lists)]
+            r = sr[args[0], args[1]]
         elif op[0] == 'itemi':
-            r = sr[tuple([] if op[1] == '-' else [int(v) for v in op[1].split(',')])]
+            r = sr[args[0]]
         elif op[0] == 'rs':
             # data part of read_samples only: the sync part (read_sync, C10) is stubbed; on synthetic nidq layouts
             # without digital sync words (snsMnMaXaDw = a,b,c,0) read_sync raises ValueError, which is not C01's subject
             sr.read_sync = lambda *a, **k: None
             try:
-                r = sr.read_samples(int(op[1]), int(op[2]), None if op[3] == 'none' else py_sel(op[3], array_lists))
+                r = sr.read_samples(args[0], args[1], args[2])
             finally:
                 del sr.read_sync
             r = r[0]
         else:
             raise RuntimeError(op)
     except (IndexError, ValueError, NotImplementedError, TypeError) as e:
-        return 'err ' + type(e).__name__
-    return canon(r)
+        return 'err ' + type(e).__name__, None
+    return canon(r), r
+
+
+def snapshot(sr):
+    """everything a read depends on besides the file: must be bit-identical after any number of reads"""
+    d = {'raw_channel_order': np.asarray(sr.raw_channel_order).tobytes(),
+         'meta': repr(sorted((str(k), repr(v)) for k, v in sr.meta.items()))}
+    for k, v in sr.channel_conversion_sample2v.items():
+        d['channel_conversion_sample2v[%s]' % k] = (str(np.asarray(v).dtype), np.asarray(v).tobytes())
+    if sr.geometry is not None:
+        for k, v in sr.geometry.items():
+            d['geometry[%s]' % k] = (str(np.asarray(v).dtype), np.asarray(v).tobytes())
+    return d
+
+
+def interleave(R):
+    """Other library calls between two identical reads.  Nothing is modified by the harness: whatever these functions do in
+    place, they do to their own data (th['y'] += 20, th['flag'] = ..., analog -= percentile, ...)."""
+    import spikeglx
+    import neuropixel
+    sr = R.sr
+    done = []
+    for name, f in (
+            ('spikeglx.geometry_from_meta(sr.meta, sort=True)', lambda: spikeglx.geometry_from_meta(sr.meta, sort=True)),
+            ('spikeglx.geometry_from_meta(sr.meta, sort=False)', lambda: spikeglx.geometry_from_meta(sr.meta, sort=False)),
+            ('spikeglx._conversion_sample2v_from_meta(sr.meta)', lambda: spikeglx._conversion_sample2v_from_meta(sr.meta)),
+            ('spikeglx._get_nshanks_from_meta(sr.meta)', lambda: spikeglx._get_nshanks_from_meta(sr.meta)),
+            ('neuropixel.trace_header(version=1)', lambda: neuropixel.trace_header(version=1)),
+            ('sr.range_volts', lambda: sr.range_volts),
+            ('sr.read_sync(slice(0, 2))', lambda: sr.read_sync(slice(0, 2))),
+            ('sr[0:2, :]', lambda: sr[0:2, :]),
+            ('sr.read(nsel=slice(None), csel=[0], sync=False)', lambda: sr.read(nsel=slice(None), csel=[0], sync=False)),
+    ):
+        try:
+            f()
+            done.append(name)
+        except Exception:
+            pass
+    return done
+
+
+MODES = ('plain', 'repeat', 'interleave')
+
+
+def run_sequence(R, op, array_lists=False, mode='plain'):
+    """The call sequence of one case on the SAME Reader object with the SAME argument objects:
+    plain: one call; repeat: three calls; interleave: call, other library calls, call again.
+    Whether the argument objects or the reader's attributes were modified is only RECORDED (flags): the demand is on the
+    results, every call of the sequence must return the model's answer for the ORIGINAL argument values.
+    Returns (answers, flags, sequence)."""
+    sr = R.sr
+    args = build_args(op, array_lists)
+    keep = [_freeze(a) for a in args]
+    answers, flags, seq = [], [], []
+
+    def once():
+        a, _ = call_op(sr, op, args)
+        answers.append(a)
+        seq.append('r%d = %s' % (len(answers), op_call_text(op, array_lists)))
+        if any(_freeze(x) != y for x, y in zip(args, keep)):
+            flags.append('argument-object-modified')
+            seq.append('(the selector object now holds %s)' % ', '.join(
+                repr(x.tolist() if isinstance(x, np.ndarray) else x) for x in args))
+            keep[:] = [_freeze(x) for x in args]
+
+    once()
+    if mode == 'repeat':
+        once()
+        once()
+    elif mode == 'interleave':
+        seq.extend(interleave(R))
+        once()
+    now = snapshot(sr)
+    if any(now.get(k) != v for k, v in R.snap.items()):
+        flags.append('reader-attribute-modified')
+        R.snap = now
+    return answers, flags, seq
+
+
+def op_call_text(op, array_lists=False):
+    def t(tok):
+        v = py_sel(tok, array_lists)
+        return 'np.array(%r)' % v.tolist() if isinstance(v, np.ndarray) else repr(v)
+    if op[0] == 'read':
+        return ('sr[%s, %s]' if op[1] == 'getitem' else 'sr.read(nsel=%s, csel=%s, sync=False)') % (t(op[2]), t(op[3]))
+    if op[0] == 'item1':
+        return 'sr[%s]' % t(op[1])
+    if op[0] == 'itemt':
+        return 'sr[%s, %s]' % (t(op[1]), t(op[2]))
+    if op[0] == 'itemi':
+        return 'sr[%r]' % (build_args(op)[0],)
+    return 'sr.read_samples(%s, %s, %s)[0]' % (op[1], op[2], 'None' if op[3] == 'none' else t(op[3]))
+
+
+def run_op(R, op, array_lists=False, mode='plain'):
+    """(canonical answer of a case, flags): the common answer of all calls of its sequence, or which call deviated"""
+    answers, flags, seq = run_sequence(R, op, array_lists, mode)
+    if any(a != answers[0] for a in answers):
+        k = next(i for i, a in enumerate(answers) if a != answers[0])
+        return 'UNSTABLE call %d returned %s, call 1 returned %s | sequence: %s' % (k + 1, answers[k][:80], answers[0][:80], ' ; '.join(seq)), flags
+    return answers[0], flags
+
+
+def reopen_check(R):
+    """A second Reader on the same files and geometry_from_meta called again must give what the first gave.
+    Returns a list of problems (concrete call sequences)."""
+    import spikeglx
+    sr, spec = R.sr, R.spec
+    problems = []
+    first = geom_canon(sr.geometry)
+    for n in (1, 2):
+        again = geom_canon(spikeglx.geometry_from_meta(sr.meta, sort=spec['sort']))
+        if again != first:
+            problems.append(f'spikeglx.geometry_from_meta(sr.meta, sort={spec["sort"]}) call {n} after the reader was built differs from sr.geometry')
+            break
+    spikeglx.Reader(R.file, sort=not spec['sort']).close()      # a reader with the other sort mode in between
+    sr2 = spikeglx.Reader(R.file, sort=spec['sort'])
+    try:
+        s1, s2 = snapshot(sr), snapshot(sr2)
+        for k in s1:
+            if k != 'meta' and s1[k] != s2.get(k):
+                problems.append(f'a second spikeglx.Reader(file, sort={spec["sort"]}) on the same files has a different {k}')
+        a1 = call_op(sr, ['read', 'getitem', 's:_:_:_', 's:_:_:_'], [slice(None), slice(None)])[0]
+        a2 = call_op(sr2, ['read', 'getitem', 's:_:_:_', 's:_:_:_'], [slice(None), slice(None)])[0]
+        if a1 != a2:
+            problems.append('sr2[:, :] of a second Reader on the same files differs from sr[:, :]')
+    finally:
+        sr2.close()
+    return problems
 
 
 def op_line(op):
@@ -572,6 +736,8 @@ def _tags(spec, op, impl_ans, order_ident, uniform):
          'mutated' if spec['mutated'] else 'asis', 'table=' + spec['table_style'],
          'perm=identity' if order_ident else 'perm=nonidentity', 'gains=uniform' if uniform else 'gains=nonuniform',
          'op=' + op[0]]
+    if len(op) >= 2 and op[-2] in MODES:
+        t.append('seq=' + op[-2])
     w = impl_ans.split()
     if impl_ans.startswith('err'):
         t.append('out=' + ' '.join(w[:2]))
@@ -635,7 +801,7 @@ def slice_box(ctx):
 
 def correspondence(ctx):
     slice_box(ctx)
-    nrec = ctx.n(900, 12000)
+    nrec = ctx.n(800, 12000)
     batch = 130
     for b0 in range(0, nrec, batch):
         lines, expect = [], []   # expect: (kind, spec, op, impl_answer, extra)
@@ -661,14 +827,21 @@ def correspondence(ctx):
                     kd = ('rec', 'order', 'setorder', 'gains')[j]
                     expect.append((kd, spec, [kd], a, (ident, uniform, g0, gsorted)))
                 sub = ctx.subrng(2, k)
-                for op in spec['ops']:
+                for op, (mode, arr) in zip(spec['ops'], spec['modes']):
                     lines.append(op_line(op))
-                    arr = bool(sub.random() < 0.5)
-                    expect.append(('op', spec, op, run_op(R.sr, op, array_lists=arr), (ident, uniform, None, None)))
+                    ans, flags = run_op(R, op, array_lists=arr, mode=mode)
+                    expect.append(('op', spec, op + [mode, arr], ans, (ident, uniform, None, tuple(flags))))
                     if op[0] == 'read' and sub.random() < 0.35:
                         # the specification side against NumPy itself, on the raw integers
                         lines.append(f'select {op[2]} {op[3]}')
                         expect.append(('op', spec, ['select', 'numpy', op[2], op[3]], numpy_select(R.D, op, arr), (True, True, None, None)))
+                if spec['reopen']:
+                    pr = reopen_check(R)
+                    ctx.compare('reopen', {'k': spec['k'], 'fixture': spec['fixture'], 'backend': spec['backend'], 'sort': spec['sort'],
+                                           'ns': spec['ns'], 'nc': spec['nc'], 'op': ['reopen']},
+                                'ok' if not pr else 'IMPURE ' + '; '.join(pr[:3]), 'ok', nontrivial=not ident, tags=('reopen',))
+                if spec['backend'] == 'bin' and not np.array_equal(np.fromfile(R.file, dtype=np.int16), R.D.reshape(-1)):
+                    ctx.mismatch('file', {'k': spec['k'], 'op': ['file']}, 'the .bin file was modified by reading', 'unchanged')
             finally:
                 R.close()
         model = ctx.lean(lines)
@@ -705,7 +878,8 @@ def correspondence(ctx):
                 ctx.compare('geometry', dict(desc, op=['geometry']), gsorted, mg, nontrivial=not ident,
                             tags=('geometry', 'geom=' + ('none' if g0 is None else 'present')))
                 continue
-            ctx.compare(kind if kind != 'op' else op[0], desc, a, m, nontrivial=nt, tags=_tags(spec, op, a, ident, uniform))
+            extra = tuple('info:' + f for f in gsorted) if kind == 'op' and isinstance(gsorted, tuple) else ()
+            ctx.compare(kind if kind != 'op' else op[0], desc, a, m, nontrivial=nt, tags=_tags(spec, op, a, ident, uniform) + extra)
 
 
 # ---------------------------------------------------------------------------------------------
@@ -799,12 +973,14 @@ def oracle_recording(R, ops=None):
         A = (A.astype(np.float64) * g[o]).astype(np.float32)
     if nsync and not np.array_equal(A[:, nc - nsync:].view(np.uint32), D[:, nc - nsync:].astype(np.float32).view(np.uint32)):
         return (['sync'], 'sync columns differ from float32(raw)', 'unscaled sync')
-    for op in (spec['ops'] if ops is None else ops):
+    todo = [(op, m, a) for op, (m, a) in zip(spec['ops'], spec.get('modes') or [['plain', False]] * len(spec['ops']))] if ops is None else ops
+    for op, mode, arr0 in todo:
         why = excluded(spec, op)
         if why:
             continue
-        for arr in (False, True):
-            obs = run_op(sr, op, array_lists=arr)
+        for arr, md in ((arr0, mode), (not arr0, 'plain')):
+            answers, _flags, seq = run_sequence(R, op, array_lists=arr, mode=md)
+            case = [op, md, arr]
             try:
                 if op[0] == 'read':
                     exp = A[py_sel(op[2], arr), :][..., py_sel(op[3], arr)]
@@ -817,13 +993,19 @@ def oracle_recording(R, ops=None):
                 exp = canon(np.asarray(exp))
             except (IndexError, ValueError) as e:
                 exp = 'err'
-            if exp == 'err':
-                # an invalid selector: on a .bin the reader must reject it like NumPy; on a .cbin the error handling is
-                # mtscomp's (zero step over an empty range gives an empty array, ints below -ns wrap): nothing is demanded
-                if spec['backend'] == 'bin' and not obs.startswith('err'):
-                    return (op, obs[:200], 'an exception: NumPy rejects this selector (' + op_line(op) + ')')
-            elif obs != exp:
-                return (op, _short(obs, exp), _short(exp, obs))
+            for n, obs in enumerate(answers):
+                tail = '' if len(answers) == 1 else ' (call %d of the sequence: %s)' % (n + 1, ' ; '.join(seq))
+                if exp == 'err':
+                    # an invalid selector: on a .bin the reader must reject it like NumPy; on a .cbin the error handling is
+                    # mtscomp's (zero step over an empty range gives an empty array, ints below -ns wrap): nothing is demanded
+                    if spec['backend'] == 'bin' and not obs.startswith('err'):
+                        return (case, obs[:200] + tail, 'an exception: NumPy rejects this selector (' + op_line(op) + ')')
+                elif obs != exp:
+                    return (case, _short(obs, exp) + tail, _short(exp, obs))
+    if ops is None and spec.get('reopen'):
+        pr = reopen_check(R)
+        if pr:
+            return ([['reopen'], 'plain', False], '; '.join(pr[:3]), 'the same order, gains, geometry and data as the first Reader')
     return None
 
 
@@ -840,16 +1022,33 @@ def _short(a, b):
     return a[:160]
 
 
-def _replay_input(spec, D, op):
+def _case(c):
+    """normalise what the oracle reports as the failing case to [op, mode, array_lists]"""
+    return c if (len(c) == 3 and isinstance(c[0], list)) else [c, 'plain', False]
+
+
+def _replay_input(spec, D, case):
+    op, mode, arr = _case(case)
+    calls = None
+    if op[0] in ('read', 'item1', 'itemt', 'itemi', 'rs'):
+        calls = {'plain': 'one call', 'repeat': 'three identical calls on the same Reader with the same argument objects',
+                 'interleave': 'call, then the library calls listed in harness/props/c01.py interleave() (geometry_from_meta, '
+                               '_conversion_sample2v_from_meta, _get_nshanks_from_meta, trace_header, range_volts, read_sync, other reads), '
+                               'then the same call again'}[mode] + ': ' + op_call_text(op, arr)
     return {'fixture': spec['fixture'], 'family': spec['family'], 'band': spec['band'], 'meta_overrides': spec['over'],
             'ns': int(D.shape[0]), 'nc': int(D.shape[1]), 'backend': spec['backend'], 'chunk': spec['chunk'], 'sort': spec['sort'],
-            'data': D.tolist() if D.size <= 4000 else None, 'data_seed': spec['data_seed'], 'op': op}
+            'data': D.tolist() if D.size <= 4000 else None, 'data_seed': spec['data_seed'], 'op': op, 'mode': mode,
+            'array_lists': arr, 'call_sequence': calls or 'open spikeglx.Reader(file, sort=sort)' + (
+                '; call spikeglx.geometry_from_meta(sr.meta, sort=sort) twice; open a second Reader on the same files' if op[0] == 'reopen' else '')}
 
 
 def _spec_from_input(i):
+    reopen = i['op'][0] == 'reopen'
     return {'k': -1, 'fixture': i['fixture'], 'family': i['family'], 'band': i['band'], 'over': i['meta_overrides'], 'ns': i['ns'],
             'nc': i['nc'], 'backend': i['backend'], 'chunk': i['chunk'], 'sort': i['sort'], 'data_seed': i['data_seed'],
-            'ops': [i['op']], 'mutated': True, 'table_style': '?'}
+            'ops': [] if reopen or i['op'][0] in ('geometry', 'sync', 'open', 'oracle') else [i['op']],
+            'modes': [] if reopen or i['op'][0] in ('geometry', 'sync', 'open', 'oracle') else [[i.get('mode', 'plain'), bool(i.get('array_lists', False))]],
+            'reopen': reopen, 'mutated': True, 'table_style': '?'}
 
 
 def _check_spec(spec, data=None, ops=None):
@@ -880,17 +1079,27 @@ def search(ctx, reasons):
         res, D = _check_spec(spec)
         if res is None:
             continue
-        op, obs, exp = res
-        # shrink: fewer samples, simpler selectors on the same recording
+        (op, mode, arr), obs, exp = _case(res[0]), res[1], res[2]
+        # shrink: fewer samples, simpler selectors (same call sequence first, then a single call) on the same recording
         cand = None
         for ns2 in sorted({1, 2, 3, min(spec['ns'], 5), spec['ns']}):
             if ns2 > spec['ns'] or D is None:
                 continue
             s2 = dict(spec, ns=ns2)
+            if op[0] == 'reopen':
+                s2 = dict(s2, ops=[], modes=[], reopen=True)
+                r2, D2 = _check_spec(s2, data=D[:ns2])
+                if r2 is not None:
+                    cand = (s2, D2 if D2 is not None else D[:ns2], r2)
+                    break
+                continue
             simple = [['read', 'getitem', 'i:0', 'i:0'], ['read', 'getitem', 's:_:_:_', 's:_:_:_'], ['read', 'getitem', 's:_:_:_', 'i:0'],
-                      ['item1', 'l:0,0'], ['item1', 'l:0'], ['item1', 'n:0']]
-            for ops in ([o] for o in simple + ([op] if op[0] in ('read', 'item1', 'itemt', 'rs') else [])):
-                r2, D2 = _check_spec(s2, data=D[:ns2], ops=ops)
+                      ['read', 'getitem', 's:_:_:_', 'l:0'], ['item1', 'l:0,0'], ['item1', 'l:0'], ['item1', 'n:0']]
+            tries = [(o, md, arr) for md in dict.fromkeys(['plain', mode]) for o in simple]
+            if op[0] in ('read', 'item1', 'itemt', 'rs'):
+                tries += [(op, 'plain', arr), (op, mode, arr)]
+            for t in tries:
+                r2, D2 = _check_spec(s2, data=D[:ns2], ops=[t])
                 if r2 is not None:
                     cand = (s2, D2 if D2 is not None else D[:ns2], r2)
                     break
@@ -899,7 +1108,8 @@ def search(ctx, reasons):
         if cand is None:
             cand = (spec, D, res)
         s2, D2, (op2, obs2, exp2) = cand
-        size = (D2.size if D2 is not None else 10 ** 9, len(str(op2)))
+        op2 = _case(op2)
+        size = (D2.size if D2 is not None else 10 ** 9, {'plain': 0}.get(op2[1], 1), len(str(op2)))
         if best is None or size < best[0]:
             best = (size, s2, D2, op2, obs2, exp2)
         if n >= len(ctx.mismatches[:40]) + 25 and best is not None:
@@ -915,7 +1125,7 @@ def search(ctx, reasons):
 def replay(ctx, rep):
     i = rep['input']
     spec = _spec_from_input(i)
-    res, _ = _check_spec(spec, data=i.get('data'), ops=[i['op']])
+    res, _ = _check_spec(spec, data=i.get('data'))
     print('oracle:', res)
     return res is not None
 
